@@ -120,23 +120,28 @@ def daysOfYmdFast (y m d : Int) : R Int :=
   if y < 1900 ∨ y > 2100 then daysOfYmdRaw cal y m d
   else .ok (monthStartDay y m + d)
 
-/-- `_get_gregorian_year_month_day_calendar_from_days_since_epoch` (used when no calendar is passed) -/
+/-- the zero-based "start of month" lookup of the fast path (`-1` for January … ) -/
+def fastSom (leap : Bool) (z : Int) : Int :=
+  if leap then
+    if z < 31 then -1 else if z < 60 then 30 else if z < 91 then 59 else if z < 121 then 90
+    else if z < 152 then 120 else if z < 182 then 151 else if z < 213 then 181 else if z < 244 then 212
+    else if z < 274 then 243 else if z < 305 then 273 else if z < 335 then 304 else 334
+  else
+    if z < 31 then -1 else if z < 59 then 30 else if z < 90 then 58 else if z < 120 then 89
+    else if z < 151 then 119 else if z < 181 then 150 else if z < 212 then 180 else if z < 243 then 211
+    else if z < 273 then 242 else if z < 304 then 272 else if z < 334 then 303 else 333
+
+/-- `_get_gregorian_year_month_day_calendar_from_days_since_epoch` (used when no calendar is passed):
+    `__YEAR_START_DAYS[year_index]` is `start (1900 + year_index)` as filled by `__init__` -/
 def ymdOfDaysFast (d : Int) : R (Int × Int × Int) :=
   if d < -25567 ∨ d > 47846 then fromDays cal d
   else
     let yi := Int.tdiv (d + 25567) 366
-    let d1 := d - start (yi + 1900)       -- `__YEAR_START_DAYS[year_index]`
     let y0 := yi + 1900
-    let (y, z) := if d1 ≥ len y0 then (y0 + 1, d1 - len y0) else (y0, d1)
-    let som : Int :=
-      if isLeap y then
-        if z < 31 then -1 else if z < 60 then 30 else if z < 91 then 59 else if z < 121 then 90
-        else if z < 152 then 120 else if z < 182 then 151 else if z < 213 then 181 else if z < 244 then 212
-        else if z < 274 then 243 else if z < 305 then 273 else if z < 335 then 304 else 334
-      else
-        if z < 31 then -1 else if z < 59 then 30 else if z < 90 then 58 else if z < 120 then 89
-        else if z < 151 then 119 else if z < 181 then 150 else if z < 212 then 180 else if z < 243 then 211
-        else if z < 273 then 242 else if z < 304 then 272 else if z < 334 then 303 else 333
+    let d1 := d - start y0
+    let y := if d1 ≥ len y0 then y0 + 1 else y0
+    let z := if d1 ≥ len y0 then d1 - len y0 else d1
+    let som := fastSom (isLeap y) z
     .ok (y, Int.tdiv som 29 + 1, z - som)
 
 end Greg
@@ -353,6 +358,19 @@ def cal (tbl : Array Int) (leap : Int → Bool) (e : Int) : Calc where
   twoEras := false
   eraName := "AP"
   firstMonth := 1
+
+/-! Leap-year density check used by the well-formedness proofs (C01Persian.lean): one linear pass over the years
+    0 … 9378 verifying `4·G(n) ≤ n + 60`, where `G(n)` is the number of days beyond 365 per year accumulated up to
+    the start of year `n` relative to the start of year 1.  It is what keeps the year estimate inside the list. -/
+def persG (leap : Int → Bool) : Nat → Int
+  | 0 => -(if leap 0 then 1 else 0)
+  | n+1 => persG leap n + (if leap n then 1 else 0)
+
+def densChk (leap : Int → Bool) : Nat → Nat → Int → Bool
+  | 0, _, _ => true
+  | f+1, n, g => decide (4 * g ≤ (n : Int) + 60) && densChk leap f (n + 1) (g + (if leap n then 1 else 0))
+
+def densOk (leap : Int → Bool) : Bool := densChk leap 9379 0 (persG leap 0)
 
 def simple : Calc := cal simpleStarts leapSimple (-492268)
 def arithmetic : Calc := cal arithmeticStarts leapArithmetic (-492267)
